@@ -164,6 +164,74 @@ impl Inst for U64View {
     }
 }
 
+/// A hash builder whose clone hashes differently (a per-instance seed that is re-derived when
+/// the builder is cloned): lawful for BuildHasher, and it means that nothing computed with the
+/// source's builder may be reused for the clone's table.
+pub struct RBuild {
+    kind: HK,
+    seed: u64,
+}
+impl Clone for RBuild {
+    fn clone(&self) -> RBuild {
+        RBuild { kind: self.kind, seed: self.seed.wrapping_mul(0x9E37_79B9_7F4A_7C15).wrapping_add(1) }
+    }
+}
+pub struct RHasher(THasher, u64);
+impl BuildHasher for RBuild {
+    type Hasher = RHasher;
+    fn build_hasher(&self) -> RHasher {
+        RHasher(TBuild { kind: self.kind }.build_hasher(), self.seed)
+    }
+}
+impl Hasher for RHasher {
+    fn write(&mut self, b: &[u8]) {
+        self.0.write(b)
+    }
+    fn write_u32(&mut self, v: u32) {
+        self.0.write_u32(v)
+    }
+    fn finish(&self) -> u64 {
+        HASHES.with(|c| c.set(c.get() + 1));
+        callback(Cb::HashK);
+        (self.0.finish() ^ self.1).wrapping_mul(0xD6E8_FEB8_6659_FD93)
+    }
+}
+
+pub struct ReseedView;
+impl Inst for ReseedView {
+    const MANY_KEYS: bool = true;
+    const CLONE_BUMPS: bool = true;
+    type K = u64;
+    type Q = u64;
+    type V = View;
+    type S = RBuild;
+    const NAME: &'static str = "LruCache<u64, Copy value> with a hash builder whose clone hashes differently";
+    fn mk(limit: usize, cap: Option<usize>, hk: HK) -> LruCache<u64, View, RBuild> {
+        match cap {
+            None => LruCache::with_hasher(limit, RBuild { kind: hk, seed: 1 }),
+            Some(c) => LruCache::with_capacity_and_hasher(limit, c, RBuild { kind: hk, seed: 1 }),
+        }
+    }
+    fn key(id: u32) -> u64 {
+        id as u64
+    }
+    fn with_q<R>(id: u32, f: impl FnOnce(&u64) -> R) -> R {
+        f(&(id as u64))
+    }
+    fn kid(k: &u64) -> u32 {
+        *k as u32
+    }
+    fn val(tag: u32, sel: usize) -> View {
+        View { tag, len: VIEW_LENS[sel] }
+    }
+    fn vtag(v: &View) -> u32 {
+        v.tag
+    }
+    fn resize(v: &mut View, sel: usize) {
+        v.len = VIEW_LENS[sel];
+    }
+}
+
 pub struct DefaultHasherView;
 impl Inst for DefaultHasherView {
     const MANY_KEYS: bool = true;
@@ -597,7 +665,7 @@ fn alphabet<T: Inst>() -> Vec<IOp> {
 
 const NONE: (u32, u32) = (u32::MAX, u32::MAX);
 const COUNT: u32 = u32::MAX - 1;
-pub const NPATS: u8 = 16;
+pub const NPATS: u8 = 17;
 
 /// The iterator is taken by value so that the provided methods a type may
 /// override (last, count, nth, rev) are really the type's own.
@@ -642,6 +710,18 @@ fn drive<X, I: DoubleEndedIterator<Item = X>>(mut it: I, pat: u8, n: usize, f: i
         9 => {
             let mut v: Vec<(u32, u32)> = (0..n + 1).map(|_| g(it.next_back())).collect();
             v.push(g(it.last()));
+            v
+        }
+        // the consumer panics while the iterator is alive: the iterator is dropped by the
+        // unwinding (the panic is caught here); what it had not yielded must still be dropped
+        16 => {
+            let mut v = vec![];
+            let _ = std::panic::catch_unwind(std::panic::AssertUnwindSafe(|| {
+                let mut it = it;
+                v.push(g(it.next()));
+                v.push(g(it.next_back()));
+                std::panic::panic_any("the consumer of the iterator panics");
+            }));
             v
         }
         // 10..=15: the internal-iteration methods (fold, rfold, try_fold, try_rfold through
@@ -1831,7 +1911,7 @@ fn run_seq<T: Inst>(job: &Job, sm: [usize; 5], seq: &[IOp], out: &mut InstResult
                 let av = guard(std::panic::catch_unwind(std::panic::AssertUnwindSafe(|| drive(c.values(), pat, n, |v| (0, T::vtag(v))))));
                 for (what, a, e) in [("iter()", a, e), ("keys()", ak, ek), ("values()", av, ev)] {
                     if a != e {
-                        problems.push((p(12) | p(5), "C12.sequence", format!("{what} driven by pattern {pat} (0 front, 1 back, 2 alternating, 3 next+last, 4 exhausted+last, 5 met in the middle+last, 6 next_back+count, 7 nth+count, 8 next+rev, 9 exhausted from the back+last, 10 next+rfold, 11 exhausted+rev().for_each, 12 exhausted from the back+for_each, 13 next_back+find, 14 next+rfind, 15 met in the middle+fold) yields {a:?}, expected {e:?} ((u32::MAX, u32::MAX) = None; [(COUNT, COUNT)] = the iterator panicked or did not stop)")));
+                        problems.push((p(12) | p(5), "C12.sequence", format!("{what} driven by pattern {pat} (0 front, 1 back, 2 alternating, 3 next+last, 4 exhausted+last, 5 met in the middle+last, 6 next_back+count, 7 nth+count, 8 next+rev, 9 exhausted from the back+last, 10 next+rfold, 11 exhausted+rev().for_each, 12 exhausted from the back+for_each, 13 next_back+find, 14 next+rfind, 15 met in the middle+fold, 16 next+next_back, then the consumer panics and the iterator is dropped by the unwinding) yields {a:?}, expected {e:?} ((u32::MAX, u32::MAX) = None; [(COUNT, COUNT)] = the iterator panicked or did not stop)")));
                         break;
                     }
                 }
@@ -2018,6 +2098,7 @@ pub fn explore_for(sel: Props, depth: usize, ladder: usize, deep: usize, huge: &
     }
     add!(U64View);
     add!(StringVec);
+    add!(ReseedView);
     add!(PathKeys);
     add!(TrackedKeyView);
     add!(PlainKeyTracked);
@@ -2100,6 +2181,12 @@ pub fn explore_for(sel: Props, depth: usize, ladder: usize, deep: usize, huge: &
             let job = Job { hk, limit: usize::MAX, cap: None, depth: 1, prefix: vec![], second_after: None, label: "churn", alpha: Some(finals.clone()), preload: 0, churn: Some((pat, steps)), id: jobs.len() as u32, mode: 0, skips: skips.clone() };
             jobs.push(Box::new(move || run_job::<U64View>(job)));
         }
+    }
+    // more than 2^16 entries that all share one control tag (the top seven bits of every hash are
+    // zero under this hasher): a per-tag or per-group counter of 16 bits saturates or wraps
+    if huge.iter().any(|n| *n >= 70_000) {
+        let job = Job { hk: HK::SameTag, limit: usize::MAX, cap: None, depth: 1, prefix: vec![], second_after: None, label: "huge", alpha: None, preload: 70_000, churn: None, id: jobs.len() as u32, mode: 0, skips: skips.clone() };
+        jobs.push(Box::new(move || run_job::<U64View>(job)));
     }
     run_jobs(jobs, threads)
 }
@@ -2472,6 +2559,7 @@ pub fn explore_faults(depth: usize, ladder_sizes: &[usize], threads: usize, skip
     }
     add!(U64View);
     add!(StringVec);
+    add!(ReseedView);
     add!(PathKeys);
     add!(TrackedKeyView);
     add!(PlainKeyTracked);
